@@ -76,12 +76,13 @@ let attempt (d:ode) (kind:int) (acc:float) (t0:float) (y0:float list) (t1:float)
     let (((q1,u1),z1), ((eq,eu),ez)) = sxe2_step fops vo (nmuln d) (facc d) t0 t1 q0 u0 z0 ud0 zd0 in
     (true, 2, 1, q1 @ u1 @ z1, eq @ eu @ ez)
 
+let use_inf = ref false
 let errnorm (d:ode) (y0:float list) (yerr:float list) : float =
   let n2 = d.n2 in
   let u0 = take n2 (drop n2 y0) and z0 = drop (2*n2) y0 in
   let su = List.map (fun v -> rel_scale fops v 1.0) u0 and sz = List.map (fun v -> rel_scale fops v 1.0) z0 in
   let wq = List.init n2 (fun _ -> 1.0) in
-  err_norm fops wq su sz (take n2 yerr) (take n2 (drop n2 yerr)) (drop (2*n2) yerr)
+  err_norm_sel fops !use_inf wq su sz (take n2 yerr) (take n2 (drop n2 yerr)) (drop (2*n2) yerr)
 
 let rec split_bars toks cur acc = match toks with
   | [] -> List.rev (List.rev cur :: acc)
@@ -101,7 +102,18 @@ let () =
   try while true do
     let line = input_line stdin in
     let tk = toks line in
+    let tk = match tk with
+      | "STEPI" :: r -> use_inf := true; "STEP" :: r
+      | "TAKEI" :: r -> use_inf := true; "TAKE" :: r
+      | _ -> use_inf := false; tk in
     (match tk with
+     | "NORM" :: ui :: n2 :: nz :: "|" :: rest ->
+       use_inf := (ui <> "0");
+       (match split_bars rest [] [] with
+        | nd :: y0 :: ye :: _ ->
+          let d = { n2 = int_of_string n2; nz = int_of_string nz; fam = 0; nd = Array.of_list (List.map fl nd); m = [||]; c = [||] } in
+          Printf.printf "N %h\n" (errnorm d (List.map fl y0) (List.map fl ye))
+        | _ -> print_endline "BAD")
      | "STEP" :: kind :: n2 :: nz :: fam :: t0 :: h :: acc :: "|" :: rest ->
        let kind = int_of_string kind and t0 = fl t0 and h = fl h and acc = fl acc in
        let (d, y0) = read_ode (int_of_string n2) (int_of_string nz) (int_of_string fam) (split_bars rest [] []) in
